@@ -115,9 +115,12 @@ def main(args):
             if "panic" in res:
                 run.diverge("panic", "server panicked: " + res["panic"][:300], s, None)
             elif res.get("stuck"):
-                run.diverge("stuck", res["stuck"], s, None)
+                run.diverge("stuck", res["stuck"][:900], s, None)
         seen = set()
         for m in RACE.finditer(err):
+            if "hledger-lsp/internal/" not in m.group(1):
+                run.extra["harness_only_race_reports"] = run.extra.get("harness_only_race_reports", 0) + 1
+                continue        # a report that involves no code of the server is the harness's own business, never a verdict
             nraces += 1
             sig = "race:" + race_signature(m.group(1))
             if sig in seen:
@@ -156,5 +159,8 @@ def confirm(run, d):
         if d["sig"] == "stuck":
             return bool(res.get("stuck"))
         return any(("stale-answer:" + a["differ"][0]) == d["sig"] for a in res.get("answers", []) if a["differ"])
-    res = run.harness("stress", [dict(c, id="0")], race=True, env_extra={"GORACE": "exitcode=0"})[0]
-    return bool(res.get("stuck")) == (d["sig"] == "stuck")
+    # a deadlock needs the configuration refresh to meet an analysis at the right moment: the same stream is run again
+    # several times with other jitter seeds; it counts as reproduced when any of them blocks again
+    copies = [dict(c, id=str(k), seed=c.get("seed", 0) + 7919 * k) for k in range(12)]
+    res = run.harness("stress", copies, race=True, env_extra={"GORACE": "exitcode=0"}, args=("-par", "4"))
+    return any(r.get("stuck") for r in res) == (d["sig"] == "stuck")
